@@ -84,6 +84,7 @@ class SimQueue:
         self.k = k
         self.q = []
         self.quiet_gets = 0      # timed-out get() calls since the last put (observation only)
+        self.consumer = None     # last simulated thread that blocked in get()
         if not hasattr(k, "queues"):
             k.queues = []
         k.queues.append(self)
@@ -100,6 +101,7 @@ class SimQueue:
     def get(self, block=True, timeout=None):
         if not block:
             return self.get_nowait()
+        self.consumer = self.k.me()
         self.k.block(lambda: bool(self.q), timeout, "q.get")
         if not self.q:
             self.quiet_gets += 1
